@@ -1226,7 +1226,8 @@ fn pick_cfg(rng: &mut impl Rng, kind: Kind, big_shards: bool) -> (usize, usize, 
         let sb = if big_shards {
             *[1024usize, 2048, 4096, 4160, 8320, 1026, 3000].choose(rng).unwrap()
         } else {
-            *[2usize, 4, 6, 8, 30, 62, 64, 66, 126, 128, 130, 192, 256, 258].choose(rng).unwrap()
+            // mostly up to four blocks; sometimes beyond 1 KiB with a partial last block (kernels that work in strips)
+            *[2usize, 4, 6, 8, 30, 62, 64, 66, 126, 128, 130, 192, 256, 258, 2, 64, 66, 1026, 1150, 3000].choose(rng).unwrap()
         };
         let ok = match kind {
             Kind::High => crate::dut::supports_rate("high", k, r),
